@@ -184,8 +184,16 @@ NewCons(X, Y, o) ==
      ELSE LET id == CHOOSE i \in ids : TRUE IN
           IF x \in Aggs THEN cons[x] \o FlatBatches(o.ev[id])
           ELSE Explain(Sc.streams[x], cons[x], o.ev[id], SubKind(X, Y, id), Exact(id))]
+\* early pruning for aggregated streams: what the specification has delivered so far and what was recorded must
+\* stay comparable key by key (the delivered sequence only grows, so an incomparable pair never recovers; without
+\* this a wrong early choice of the search is only refuted by AggOK at the very end)
+AggCompat(x, c) ==
+  LET rec == RecFlat(Sc.streams[x]) IN
+  \A k \in {c[i][2] : i \in DOMAIN c} :
+     LET a == PerKey(rec, k)  b == PerKey(c, k) IN IsPrefixSeq(a, b) \/ IsPrefixSeq(b, a)
 DeliverOK(X, Y, o) ==
   /\ \A x \in DOMAIN cons \ Aggs : NewCons(X, Y, o)[x] # -1
+  /\ \A x \in Aggs \cap DOMAIN cons : NewCons(X, Y, o)[x] = cons[x] \/ AggCompat(x, NewCons(X, Y, o)[x])
   /\ \A id \in DOMAIN o.ev : IdStr(id) \notin DOMAIN cons => ~Exact(id)
 
 NewOutc(o) ==
